@@ -62,10 +62,10 @@ def grid(types, rng):
     total = 1
     for p in pools:
         total *= len(p)
-    if total <= 2500:
+    if total <= 3000:
         combos = list(itertools.product(*pools))
     else:
-        combos = [tuple(rng.choice(p) for p in pools) for _ in range(2500)]
+        combos = [tuple(rng.choice(p) for p in pools) for _ in range(3000)]
         combos += [tuple(p[i % len(p)] for p in pools) for i in range(60)]
     return combos
 
@@ -108,8 +108,21 @@ def py_show(v):
 
 
 def run(keep=False) -> dict:
-    res = {"ok": True, "functions": 0, "evaluations": 0, "disagreements": [], "errors": [], "per_function": {}}
-    targets = py2lean.load_targets(ROOT / "targets.py")["Selftest"]
+    res = {"ok": True, "functions": 0, "evaluations": 0, "disagreements": [], "errors": [], "per_function": {}, "refused": {}}
+    all_targets = py2lean.load_targets(ROOT / "targets.py")
+    # negative part: every function of corpus/unsupported.py must be refused, with the expected reason
+    refuse = all_targets["SelftestRefuse"]
+    rgen = py2lean.Gen("SelftestRefuse", refuse, py2lean.Source(ROOT))
+    rgen.translate_all()
+    for t in rgen.targets:
+        want = refuse["expect"][t.function]
+        err = getattr(t, "error", "")
+        ok = t.state == "failed" and err.startswith("UNSUPPORTED: ") and want in err
+        res["refused"][t.function] = {"ok": ok, "error": err or "(translated!)", "expected_fragment": want}
+        if not ok:
+            res["ok"] = False
+            res["disagreements"].append({"function": t.function, "input": None, "python": f"must be refused ({want})", "lean": err or "was translated"})
+    targets = all_targets["Selftest"]
     tmp = Path(tempfile.mkdtemp(prefix="py2lean_selftest_"))
     try:
         out_dir = tmp / "PyodaGen"
@@ -123,53 +136,54 @@ def run(keep=False) -> dict:
         gen.translate_all()
         rng = random.Random(20261002)
         plan = []
-        ev = ["import PyodaGen.Selftest", "open Pyoda Pyoda.Gen.Selftest Pyoda.Gen.SelftestSupport", ""]
-        ev.append("def showR {α} (f : α → String) : R α → String | .ok a => f a | .error e => \"!\" ++ e.name")
-        for t in gen.targets:
+        ev = ["import PyodaGen.Selftest", "open Pyoda Pyoda.Gen.Selftest Pyoda.Gen.SelftestSupport", "",
+              "/-- one input per line, integer atoms separated by blanks (booleans as 0/1) -/",
+              "def runRows (name file : String) (f : List Int → String) : IO Unit := do",
+              "  let s ← IO.FS.readFile file",
+              "  IO.println (\"## \" ++ name)",
+              "  for ln in s.splitOn \"\\n\" do",
+              "    if ln ≠ \"\" then",
+              "      let xs := (ln.splitOn \" \").filterMap String.toInt?",
+              "      IO.println (f xs)", ""]
+        for idx, t in enumerate(gen.targets):
             types = [ty for _, ty in t.lean_params()]
-            fparams = t.fun_params
             combos = grid(types, rng)
             plan.append((t, types, combos))
-            # the inputs as a Lean list of tuples of atoms
             n_atoms = sum(atoms(ty) for ty in types)
             rows = []
             for c in combos:
                 flat = [x for part in c for x in part]
-                rows.append("(" + ", ".join(lean_lit(x) for x in flat) + (", ()" if n_atoms == 0 else "") + ")" if n_atoms != 1 else lean_lit(flat[0]))
-            names = []
-            args = []
+                rows.append(" ".join(str(int(x)) for x in flat) if flat else "0")
+            (tmp / f"in_{idx}.txt").write_text("\n".join(rows) + "\n")
+            names, args = [], []
             k = 0
             for ty in types:
                 if ty == "Vec":
                     names += [f"a{k}", f"a{k+1}"]
                     args.append(f"(⟨a{k}, a{k+1}⟩ : Vec)")
                     k += 2
+                elif ty == "Bool":
+                    names.append(f"a{k}")
+                    args.append(f"(a{k} != 0)")
+                    k += 1
                 else:
                     names.append(f"a{k}")
                     args.append(f"a{k}")
                     k += 1
-            fargs = []
-            for fname, ats, rt, fd in fparams:   # abstract callee of the self-test: w x = 3*x - 2
-                fargs.append("(fun x => 3 * x - 2)")
+            fargs = ["(fun x => 3 * x - 2)" for _ in t.fun_params]   # abstract callee of the self-test: w x = 3*x - 2
             call = " ".join([t.lean_name] + fargs + args) if (args or fargs) else t.lean_name
-            shown = f"showR (fun v => {lean_show(t.ret, 'v')}) ({call})" if t.raises else lean_show(t.ret, f"({call})")
-            if n_atoms == 0:
-                body = f"[{shown}]"
-            else:
-                pat = names[0] if n_atoms == 1 else "(" + ", ".join(names) + ")"
-                elem = " × ".join("Bool" if ty == "Bool" else "Int" for ty in types for _ in range(atoms(ty)))
-                body = f"(([{', '.join(rows)}] : List ({elem})).map fun {pat} => {shown})"
-            ev.append(f"#eval IO.println (\"## {t.lean_name}\\n\" ++ String.intercalate \"\\n\" {body})")
+            shown = f"Pyoda.showR (fun v => {lean_show(t.ret, 'v')}) ({call})" if t.raises else lean_show(t.ret, f"({call})")
+            pat = "[" + ", ".join(names) + "]" if names else "_"
+            ev.append(f"#eval runRows \"{t.lean_name}\" \"{tmp}/in_{idx}.txt\" fun r => match r with | {pat} => {shown}" + (" | _ => \"?arity\"" if names else ""))
         (tmp / "Eval.lean").write_text("\n".join(ev) + "\n")
         # compile + evaluate in the scratch root
         lp = subprocess.run(["lake", "env", "printenv", "LEAN_PATH"], cwd=LEAN, capture_output=True, text=True, timeout=600)
         if lp.returncode != 0:
             raise RuntimeError("lake env failed: " + lp.stderr[-300:])
         built = LEAN / ".lake" / "build" / "lib" / "lean" / "PyodaGen"
-        if not (built / "Support.olean").exists():
-            b = subprocess.run(["lake", "build", "PyodaGen.Support"], cwd=LEAN, capture_output=True, text=True, timeout=3600)
-            if b.returncode != 0:
-                raise RuntimeError("lake build PyodaGen.Support failed: " + (b.stdout + b.stderr)[-400:])
+        b = subprocess.run(["lake", "build", "PyodaGen.Support"], cwd=LEAN, capture_output=True, text=True, timeout=3600)
+        if b.returncode != 0:
+            raise RuntimeError("lake build PyodaGen.Support failed: " + (b.stdout + b.stderr)[-400:])
         for f in built.iterdir():
             if f.stem.split(".")[0] != "Selftest" and f.suffix in (".olean", ".ilean"):
                 os.symlink(f, out_dir / f.name)
@@ -234,6 +248,9 @@ def run(keep=False) -> dict:
                 except Exception as e:  # noqa: BLE001
                     p_res = "!" + EXC.get(type(e).__name__, "other:" + type(e).__name__)
                 res["evaluations"] += 1
+                if l_res == "!dom" and t.loops:
+                    res["out_of_fuel"] = res.get("out_of_fuel", 0) + 1  # loop ran out of fuel: outside the modelled domain
+                    continue
                 if p_res != l_res:
                     bad += 1
                     if len(res["disagreements"]) < 40:
@@ -263,7 +280,7 @@ def main() -> int:
     if a.json:
         print(json.dumps(r, indent=1))
     else:
-        print(f"py2lean selftest: {r['functions']} functions, {r['evaluations']} evaluations, {len(r['disagreements'])} disagreement(s) shown, "
+        print(f"py2lean selftest: {r['functions']} functions, {r['evaluations']} evaluations, {sum(1 for v in r['refused'].values() if v['ok'])}/{len(r['refused'])} unsupported constructs refused, {len(r['disagreements'])} disagreement(s) shown, "
               f"{len(r['errors'])} error(s) -> {'OK' if r['ok'] else 'FAILED'}")
         for e in r["errors"]:
             print("  error:", e)
